@@ -33,6 +33,7 @@ def run(ctx):
     lib_py.decode_every(ctx, py)
     lib_kind.py_searchsorted(ctx, py, [("trees", "TreeSequence.variants"), ("trees", "TreeSequence._haplotypes_array")])
     lib_variant.variant_copy(ctx, P)
+    lib_kind.alignments_window(ctx, py)
     lib_kind.py_copy_state(ctx, py, [("genotypes", "Variant")])
     lib_variant.sample_walks(ctx, P, tus=("genotypes",), floor=1)
     lib_module.name_agreement(ctx, P, classes=("Variant",), floor=5)
